@@ -45,6 +45,7 @@ def main(argv=None):
             entry["replay"](chk, rp)
         elif args.selftest:
             return entry["selftest"](chk)
+            return chk.finish(name="replay-" + args.prop)      # a replay does not overwrite the check's evidence
         else:
             entry["run"](chk, args.tier)
         return chk.finish()
